@@ -1,8 +1,8 @@
-(* Proofs/DHCPRefuted.v — statements of C12 the faithful model still violates:
-   concrete histories (corpus/C12/witnesses.txt, replayed on the real code by the
-   harness) evaluated by vm_compute.  (The C11 refutations of the unchanged code
-   disappeared with the repairs recorded in FIXLOG.md; their witnesses stay in
-   corpus/C11 as regression cases.) *)
+(* Proofs/DHCPRefuted.v — concrete histories evaluated by vm_compute.  The refutations of
+   C11/C12 on the unchanged code disappeared with the repairs recorded in FIXLOG.md
+   (7baf630 c9f204c d6f86b5, and 94e2701 for the option order); their witnesses stay in
+   corpus/C11, corpus/C12 as regression cases.  What remains here are the non-vacuity
+   examples of the theorems. *)
 From PV Require Import Base.Prelude Model.DHCP Model.DHCPShow Spec.DHCP Spec.DHCPCheck Proofs.DHCP.
 Open Scope N_scope.
 
@@ -26,14 +26,6 @@ Ltac last_step c w :=
   exists t;
   assert (Hin : In t (trace c (init c) (with_ch0 w))) by (apply in_rev; rewrite E; left; reflexivity);
   vm_compute in E; inversion E; subst t; clear E.
-
-(* the router option precedes the subnet mask when the client's parameter list says so *)
-Lemma mask_first_refuted : exists c h t r,
-  In t (trace c (init c) h) /\ t_reply t = Some r /\ r_type r = ROffer /\ c12_mask_first r = false.
-Proof.
-  exists wcfg, (with_ch0 w12_prl). last_step wcfg w12_prl.
-  eexists. split; [exact Hin|]. repeat split.
-Qed.
 
 (* ---------------------------------------------------------------- *)
 (* non-vacuity: histories in which OFFERs and ACKs do occur (home /28, netfilter /29, two
